@@ -154,7 +154,7 @@ func c13Check(cs c13Case) (ok bool, sig, expected, observed string) {
 		} else {
 			// other entry points used in between must not change what the error names: another directory
 			// with files of the same names is loaded, a string and a file are evaluated
-			decoy := Tree{Dir: "t0", Ext: ".tw", Files: map[string]string{"index.tw": "decoy", "lay.tw": `<d>@reserve("a")</d>`, "comp.tw": "decoy", "other.tw": "decoy"}}
+			decoy := Tree{Dir: "t0", Ext: ".html", Files: map[string]string{"index.html": "decoy", "lay.html": `<d>@reserve("a")</d>`, "comp.html": "decoy", "other.html": "decoy"}}
 			decoy.writeKeep()
 			decoy.loadKeep()
 			textwire.EvaluateString("between {{ 1 }}", nil)
@@ -213,8 +213,8 @@ func c13Run(c *Ctx) {
 						if where == 5 && (wrap != 0 || f.load || !strings.HasPrefix(f.src, "{{ ") || f.extra != 0) {
 							continue
 						}
-						if f.tree != "" && where != 1 {
-							continue
+						if f.tree != "" && where != 1 && !(f.tree == "component" && where == 2) {
+							continue // (an unknown component is also written into a layout file: the error names that file)
 						}
 						if (f.tree == "insert" || f.tree == "slot") && wrap != 0 {
 							continue
